@@ -428,8 +428,9 @@ func tryReplay(e *Engine, o *Obligation) (bool, string) {
 func (rp *replayer) run(info *ReplayInfo, o *Obligation) (bool, string) {
 	e := rp.e
 	fn := info.Fn
-	if fn.Signature.Recv() != nil {
-		rp.why = "methods are outside the harness generator's reach (receiver state would have to be built)"
+	isMethod := fn.Signature.Recv() != nil
+	if isMethod && !strings.Contains(o.Name, "/panics:") {
+		rp.why = "methods are replayed only for `panics` clauses (a zero-value receiver is enough to observe a missing panic; other clauses would need the receiver state of the model)"
 		return false, ""
 	}
 	if fn.TypeParams().Len() > 0 || (fn.Parent() != nil && fn.Parent().TypeParams().Len() > 0) {
@@ -438,6 +439,8 @@ func (rp *replayer) run(info *ReplayInfo, o *Obligation) (bool, string) {
 	}
 	kind := "ensures"
 	switch {
+	case strings.Contains(o.Name, "/panics:"):
+		kind = "mustpanic"
 	case strings.Contains(o.Name, "/nopanic:") || strings.Contains(o.Name, "/safe:"):
 		kind = "panic"
 	case strings.Contains(o.Name, "/ensures:") && rp.q.Exit != nil && !rp.q.Exit.Panic:
@@ -474,7 +477,30 @@ func (rp *replayer) run(info *ReplayInfo, o *Obligation) (bool, string) {
 	}
 	// the call
 	var args []string
-	for _, p := range info.Params {
+	params := info.Params
+	recvExpr := ""
+	if isMethod {
+		rt := fn.Signature.Recv().Type()
+		pt, isPtr := rt.(*types.Pointer)
+		if !isPtr {
+			rp.why = "value receivers are not replayed"
+			return false, ""
+		}
+		named, ok := pt.Elem().(*types.Named)
+		if !ok || named.TypeParams().Len() > 0 || named.Obj().Pkg() != e.pkg.Pkg {
+			rp.why = "receiver type outside the harness generator's reach"
+			return false, ""
+		}
+		rv, _ := params[0].V.(T)
+		n := rp.values[Eq(rv, NilOf(rv.So)).S]
+		if n != nil && n.atom == "true" {
+			recvExpr = fmt.Sprintf("(*%s)(nil)", named.Obj().Name())
+		} else {
+			recvExpr = fmt.Sprintf("new(%s)", named.Obj().Name())
+		}
+		params = params[1:]
+	}
+	for _, p := range params {
 		s, ok := rp.goExpr(p.V, p.Typ)
 		if !ok {
 			if rp.why == "" {
@@ -485,6 +511,9 @@ func (rp *replayer) run(info *ReplayInfo, o *Obligation) (bool, string) {
 		args = append(args, s)
 	}
 	callee := fn.Name()
+	if isMethod {
+		callee = recvExpr + "." + fn.Name()
+	}
 	setup := ""
 	if par := fn.Parent(); par != nil {
 		if par.Parent() != nil || par.Signature.Recv() != nil {
@@ -551,6 +580,8 @@ func (rp *replayer) run(info *ReplayInfo, o *Obligation) (bool, string) {
 	var want string
 	if kind == "panic" {
 		want = "panic"
+	} else if kind == "mustpanic" {
+		want = "a panic is required by the clause; the model (and, if confirmed, the real code) returns normally"
 	} else {
 		var ps []string
 		for i, rv := range rp.q.Exit.Results {
@@ -569,6 +600,8 @@ func (rp *replayer) run(info *ReplayInfo, o *Obligation) (bool, string) {
 	confirmed := false
 	switch {
 	case kind == "panic" && strings.HasPrefix(outcome, "panic:"):
+		confirmed = true
+	case kind == "mustpanic" && (strings.HasPrefix(outcome, "return") || strings.HasPrefix(outcome, "blocked")) && closed:
 		confirmed = true
 	case kind == "ensures" && outcome == want && closed && !strings.Contains(want, "?"):
 		confirmed = true
@@ -650,7 +683,7 @@ func runOverlayTest(repo, src string) (string, string) {
 	os.WriteFile(of, ov, 0o644)
 	ctx, cancel := context.WithTimeout(context.Background(), 180*time.Second)
 	defer cancel()
-	cmd := exec.CommandContext(ctx, "sh", "-c", "ulimit -v 16000000; exec go test -overlay "+of+" -vet=off -v -count=1 -timeout 60s -run '^TestZZGobvReplay$' .")
+	cmd := exec.CommandContext(ctx, "sh", "-c", "ulimit -v 16000000; exec go test -overlay "+of+" -vet=off -v -count=1 -timeout 20s -run '^TestZZGobvReplay$' .")
 	cmd.Dir = abs
 	cmd.Env = append(os.Environ(), "GOFLAGS=-mod=mod", "GOPROXY=off", "GOSUMDB=off", "GOTOOLCHAIN=local")
 	var buf bytes.Buffer
@@ -662,6 +695,9 @@ func runOverlayTest(repo, src string) (string, string) {
 		if strings.HasPrefix(l, "GOBV-REPLAY ") {
 			return strings.TrimPrefix(l, "GOBV-REPLAY "), raw
 		}
+	}
+	if strings.Contains(raw, "panic: test timed out") {
+		return "blocked: the call neither returned nor panicked within 20s", truncate(raw, 4000)
 	}
 	return "", truncate(raw, 4000)
 }
